@@ -117,7 +117,7 @@ def check_alloc_guards(ctx, st):
                     it0 = cands[0]
                     ctx.violate("alloc.guard-sound", key, f"{a.name} ({p['scope']}) {fn['name']}: the allocation guard counts {K} bytes per element of `{it0.get('name')}`, but one element occupies as little as {emin} byte(s) "
                                 f"on the wire: a message with {cnt} >= MAX/{K} elements that fits in a frame is rejected with AllocationTooLargeError", fn["file"], fn["line"])
-    ctx.rule("alloc.guard-sound", n, floor=169, note="allocation guards in readers: bytes counted per element <= minimum wire size of the element (so the guard rejects no encoding that fits in a frame)")
+    ctx.rule("alloc.guard-sound", n, floor=150, note="allocation guards in readers: bytes counted per element <= minimum wire size of the element (so the guard rejects no encoding that fits in a frame)")
 
 
 def run(ctx):
